@@ -14,7 +14,10 @@ Record snap := mksnap {
 Record core_case := mkcase {
   cc_cfg : cfg; cc_evs : list ev; cc_snaps : list snap; cc_exc : bool;
   cc_outdiff : nat;     (* operations whose outcome (ok / error / skipped) differs from the unversioned twin run *)
-  cc_livediff : bool }. (* final application tables differ from the unversioned twin run                     *)
+  cc_livediff : bool;   (* final application tables differ from the unversioned twin run                     *)
+  cc_ce : option (list (Z * nat * pk)) }.
+                        (* Transaction.changed_entities of every transaction record, read at the end of the run:
+                           (transaction id, class, key) of every version object returned (None: not read)  *)
 
 Definition lrow_eqb (a b : lrow) : bool :=
   (l_cls a =? l_cls b)%nat && pk_eqb (l_key a) (l_key b) && list_eqb val_eqb (l_vals a) (l_vals b).
